@@ -7,5 +7,5 @@ git -C /repo worktree add --detach "$WT" HEAD >/dev/null 2>&1
 trap 'git -C /repo worktree remove --force "$WT" >/dev/null 2>&1 || rm -rf "$WT"' EXIT
 git -C "$WT" apply "$P" 2>/dev/null || git -C "$WT" apply -3 "$P" >/dev/null 2>&1 || { echo "APPLY-FAILED"; exit 3; }
 set +e
-VERIF_REPO="$WT" VERIF_EVIDENCE_DIR="$WT/.evidence" VERIF_REPLAY_DIR="$WT/.replays" /verif/check "$ID" --tier "$TIER"
+VERIF_REPO="$WT" VERIF_EVIDENCE_DIR="$WT/.evidence" VERIF_REPLAY_DIR="$WT/.replays" "$(dirname "$0")/../check" "$ID" --tier "$TIER"
 echo "exit=$?"
